@@ -62,8 +62,8 @@ Lemma translated_source_is_the_model :
   (forall lim v, gen_is_uuid_like lim v = is_uuid_like lim v) /\
   (forall lim u4 dashed, gen_generate_uuid lim u4 dashed = generate_uuid u4 dashed).
 Proof.
-  repeat split; intros.
-  - apply bool_from_string_equiv. - apply int_from_bool_as_string_equiv. - apply is_valid_boolstr_equiv.
-  - apply is_int_like_equiv. - apply check_string_length_equiv. - apply validate_integer_equiv.
-  - apply format_uuid_string_equiv. - apply is_uuid_like_equiv. - apply generate_uuid_equiv.
+  repeat split; intros;
+    first [apply bool_from_string_equiv | apply int_from_bool_as_string_equiv | apply is_valid_boolstr_equiv
+          | apply is_int_like_equiv | apply check_string_length_equiv | apply validate_integer_equiv
+          | apply format_uuid_string_equiv | apply is_uuid_like_equiv | apply generate_uuid_equiv].
 Qed.
